@@ -165,6 +165,13 @@ def generate(prop, seed, tier):
         if lsq_ok and S.chance(0.5):
             op["method"] = S.pick(["lsq", "wlsq", "WLSQ"])
             op["weights"] = S.pick(["linear", "quadratic", "cubic", "array:linear", "list:quadratic"])
+        elif fam == "ExpWeibull" and not lsq_ok and S.chance(0.3):
+            # least squares with another fixed subset: the class refuses it (NotImplementedError by
+            # design); either it keeps refusing, or - if it ever computes something - the fixed
+            # values are still what was declared
+            op["method"] = S.pick(["lsq", "wlsq"])
+            op["weights"] = S.pick(["linear", "quadratic", "cubic"])
+            op["maybe_refused"] = True
         elif S.chance(0.15):
             op["method"] = "MLE"
         if kind == "fit_other":
@@ -368,6 +375,11 @@ def execute(prop, scen):
                 if not check_state(run, scen, dist, where, si):
                     return run
                 continue
+            if op.get("maybe_refused") and isinstance(exc, NotImplementedError):
+                run.count("probe:unsupported-lsq-subset-refused")
+                if not check_state(run, scen, dist, "after-refused-fit", si):
+                    return run
+                continue
             if exc is not None:
                 # I5: translating f_<name> into the estimator's keywords must work for every
                 # supported subset/method; numerical failures are the workload's fault
@@ -486,6 +498,8 @@ def execute_conditional(prop, scen):
             if op["source"] == "rejected":
                 if exc is not None:
                     run.count("fault:F2-estimator-rejects-data")
+            elif op.get("maybe_refused") and isinstance(exc, NotImplementedError):
+                run.count("probe:unsupported-lsq-subset-refused")
             elif exc is not None:
                 if isinstance(exc, (TypeError, AttributeError, KeyError, NotImplementedError, AssertionError, NameError)):
                     run.violate("I5-fit-with-fixed-subset-raises", f"{fam}/{'+'.join(sorted(scen['fixed']))}/{op['method'].lower()}", {"exc": repr(exc)[:300], "conditional": True, "step": si})
